@@ -105,6 +105,12 @@ class Argument:
     )
     if param.default != inspect.Parameter.empty:
       value_spec.set_default(param.default)
+    elif (value_spec.is_noneable
+          and param.kind not in (inspect.Parameter.VAR_POSITIONAL,
+                                 inspect.Parameter.VAR_KEYWORD)):
+      # A noneable value spec comes with `None` as its default, but a parameter
+      # that declares no default remains required.
+      value_spec.set_default(utils.MISSING_VALUE)
 
     # pytype: disable=wrong-arg-count
     # pytype: disable=not-instantiable
